@@ -377,13 +377,14 @@ func headerlessCorpus(o *hc.Out, bin, scratch string) {
 		// the session's WITHOUT_HEADER flag is about query output: a table file that has a header line keeps it
 		{"without_header_flag_existing_table", []string{"--without-header"}, "UPDATE `f0.csv` SET v = v + 1;", map[string]string{"f0.csv": "v\n2\n3\n"}},
 		{"without_header_set_in_procedure", nil, "SET @@WITHOUT_HEADER TO TRUE; INSERT INTO `w.csv` VALUES ('ef', 3); COMMIT; SELECT name FROM `w.csv`;", map[string]string{"w.csv": "name,n\nab,1\ncd,2\nef,3\n"}},
+		{"case_twin_files", nil, "UPDATE `T2.csv` SET v = 'w'; UPDATE `t2.CSV` SET v = 'x'; SELECT v FROM `T2.csv`; SELECT v FROM `t2.CSV`;", map[string]string{"T2.csv": "id,v\n1,w\n", "t2.CSV": "id,v\n1,x\n"}},
 		{"header_set_to_false", nil, "ALTER TABLE `f0.csv` SET HEADER TO FALSE; DELETE FROM `f0.csv`; INSERT INTO `g2.ltsv` (k, v) VALUES ('c', 9);", map[string]string{"f0.csv": "", "g2.ltsv": "k:a\tv:1\nk:b\tv:2\nk:c\tv:9\n"}},
 	}
 	for _, c := range cases {
 		dx := filepath.Join(scratch, "c01-hl-"+c.name)
 		_ = os.RemoveAll(dx)
 		_ = os.MkdirAll(dx, 0o755)
-		before := map[string]string{"f0.csv": "v\n1\n2\n", "g2.ltsv": "k:a\tv:1\nk:b\tv:2\n", "h.csv": "5\n6\n", "w.csv": "name,n\nab,1\ncd,2\n"}
+		before := map[string]string{"f0.csv": "v\n1\n2\n", "g2.ltsv": "k:a\tv:1\nk:b\tv:2\n", "h.csv": "5\n6\n", "w.csv": "name,n\nab,1\ncd,2\n", "T2.csv": "id,v\n1,p\n", "t2.CSV": "id,v\n1,q\n"}
 		for n, b := range before {
 			_ = os.WriteFile(filepath.Join(dx, n), []byte(b), 0o644)
 		}
@@ -402,7 +403,11 @@ func headerlessCorpus(o *hc.Out, bin, scratch string) {
 			for n, w := range c.want {
 				if got, ok := after[n]; !ok || got != w {
 					rep["file"], rep["want"] = n, w
-					o.Law("normal_end_did_not_publish", rep)
+					if c.name == "case_twin_files" {
+						o.Law("case_twin_files_share_one_cached_table", rep)
+					} else {
+						o.Law("normal_end_did_not_publish", rep)
+					}
 				}
 			}
 		} else if c.name == "update_loosely_equal_then_commit_then_error" {
